@@ -344,3 +344,40 @@ func VerifC03_CachedInterface() {
 		rt.Reach("cached-permitted")
 	}
 }
+
+// ---- delayed cached writes (documented for internal and local interfaces
+// only): an interface without full privileges does not get its writes parked
+// in a write cache, from where an eviction would store them later - over
+// whatever is stored then - without a permission check ----
+
+func VerifC03_DelayedWritesNeedPrivileges() {
+	rt.NoTimers()
+	rt.SchedYieldOnly(true)
+	c := c03Setup(false)
+	privileged := NewInterface(&Options{Local: true, Internal: true})
+	local, internal := rt.Bool("local"), rt.Bool("internal")
+	acting := NewInterface(&Options{Local: local, Internal: internal, CacheSize: 2, DelayCachedWrites: "t"})
+	// the key is free: the acting interface may write to it
+	rt.Assert(acting.Put(newRec("a/k", 1)) == nil, "delayedpriv/put-to-a-free-key")
+	// a protected record is stored under the key
+	prot := newRec("a/k", 5)
+	secret, jewel := rt.Bool("secret"), rt.Bool("crownjewel")
+	if secret {
+		prot.Meta().MakeSecret()
+	}
+	if jewel {
+		prot.Meta().MakeCrownJewel()
+	}
+	rt.Assert(privileged.Put(prot) == nil, "delayedpriv/privileged-put")
+	denied := rt.Any(rt.All(secret, !internal), rt.All(jewel, !local))
+	before := snap(c, "a/k")
+	// further writes of the acting interface push the first one out of its cache
+	for i := 0; i < 4; i++ {
+		_ = acting.Put(newRec("b/"+string(rune('0'+i)), int64(i)))
+	}
+	acting.FlushCache()
+	if denied {
+		sameSnap(before, snap(c, "a/k"), "delayedpriv")
+	}
+	rt.Reach("delayedpriv-end")
+}
